@@ -95,7 +95,10 @@ def cmd_run(sid, checks):
         sh("git -C /repo checkout -- .")
     meta["detected_by"] = results
     save_meta(sid, meta)
-    # leave the evidence of the unchanged tree in place
+    # leave the evidence of the unchanged tree in place (SEEDED_NO_RESTORE=1 or the marker file: the caller re-runs all checks
+    # on the unchanged tree itself at the end of a regression loop)
+    if os.environ.get("SEEDED_NO_RESTORE") or os.path.exists("/tmp/seeded_no_restore"):
+        return
     for c in checks:
         sh(f"./check {c} --tier quick", cwd=VERIF)
 
